@@ -77,7 +77,7 @@ Definition exec (e : eng) (c : call) : eng * ans :=
                  else (e, AErr 2003)
   | PutComment k c => if booted e (kd k)
                       then ({| dbs := dbs e; schs := schs e; tbls := tbls e; cmts := kput (cmts e) k c |}, AOk)
-                      else (e, AErr 2003)
+                      else (e, AErr (-1))       (* raised outside the translating try block: a raw DuckDB exception *)
   | InsertRow k v => match klook (tbls e) k with
                      | Some rows => ({| dbs := dbs e; schs := schs e; tbls := kput (tbls e) k (rows ++ [v]); cmts := cmts e |}, AOk)
                      | None => (e, AErr (if has_db e (kd k) then 2003 else 2043))
